@@ -352,6 +352,11 @@ def base_catalogue():
             wide.append(F("w%02d" % i, "u8", default="trait" if i % 5 == 0 else None))
     c.append(T("S26VeryWide", deny="default", fields=wide))
     c.append(T("E18WideVariant", tag="t", deny="fn", variants=[V("Big", fields=[F("v%02d" % i, "bool", skip=(i in (1, 2, 9))) for i in range(24)]), V("Small")]))
+    # the tag literal is used as written: neither the container's nor a variant's rename_all touches it
+    c.append(T("E19TagSnake", tag="shape_kind", rename_all="camelCase", deny="default", variants=[
+        V("RoundOne", fields=[F("radius_len", "u8")]), V("FlatOne")]))
+    c.append(T("E20TagUpper", tag="Kind", rename_all="lowercase", variants=[
+        V("Dog", fields=[F("Legs", "u8")]), V("Fish", rename_all="camelCase", fields=[F("fin_count", "u8")])]))
     return c
 
 
@@ -438,7 +443,7 @@ def rand_type(rng, idx):
                 variants.append(V(v, fields=rand_fields(rng, rng.randint(1, 4)),
                                   rename=("r_" + v) if rng.random() < 0.25 else None,
                                   rename_all=rng.choice([None, None, "camelCase", "lowercase"])))
-        t = T(name, variants=variants, tag=rng.choice(["type", "kind", "t"]), rename_all=ra, deny=deny, err=err,
+        t = T(name, variants=variants, tag=rng.choice(["type", "kind", "t", "the_tag", "Tag", "tagName"]), rename_all=ra, deny=deny, err=err,
               validate=validate)
     # effective keys must be pairwise distinct inside one struct / variant and differ from the tag
     # (the documented semantics do not say which of two colliding fields wins)
